@@ -98,6 +98,13 @@ def check_graph(n, par, stamps, G, Commit, fail, walk_objs=None):
             got = G.find_merge_base(repo, [ids[a], ids[b], ids[c]])
             if sorted(got) != sorted(ids[x] for x in want):
                 fail("find_merge_base(c1, [c2, c3]) is not the set of maximal common ancestors of c1 with any c2", dict(desc(), c1=a, c2s=[b, c], got=[int(x) for x in got], want=sorted(want)))
+        for a, b, c in itertools.permutations(range(n), 3):
+            # merge-base --octopus: the maximal commits that are ancestors of ALL three (the fold is order-sensitive)
+            cases += 1
+            want = maximal(anc[a] & anc[b] & anc[c], anc)
+            got = G.find_octopus_base(repo, [ids[a], ids[b], ids[c]])
+            if sorted(got) != sorted(ids[x] for x in want):
+                fail("find_octopus_base is not the set of maximal common ancestors of all commits", dict(desc(), commits=[a, b, c], got=[int(x) for x in got], want=sorted(want)))
         for sub in itertools.combinations(range(n), 3):
             cases += 1
             want = [x for x in sub if not any(x != y and x in anc[y] for y in sub)]
@@ -190,6 +197,23 @@ def run_large(args):
             stamps.append(10 + i)
         cases += check_walk_sets(3 + k, par, stamps, [(2,)], [2 + k], fail, W, O, MemoryObjectStore, "feature ^main with %d newer commits on main" % k)
     rnd = random.Random(seed)
+    if seed % 1000 == 0:
+        # directed: criss-cross families above a shared root / two roots / a chain (5..7 commits), every query pair and
+        # triple (merge base, octopus base, independent, fast-forward) under monotone, reversed, tied and random clocks
+        shapes = [
+            {0: [], 1: [0], 2: [0], 3: [1, 2], 4: [1, 2]},
+            {0: [], 1: [0], 2: [0], 3: [1, 2], 4: [1, 2], 5: [3, 4]},
+            {0: [], 1: [0], 2: [0], 3: [1, 2], 4: [1, 2], 5: [3, 4], 6: [3, 4]},
+            {0: [], 1: [], 2: [0, 1], 3: [0, 1], 4: [2, 3], 5: [2, 3]},
+            {0: [], 1: [0], 2: [1], 3: [1], 4: [2, 3], 5: [2, 3], 6: [0]},
+            {0: [], 1: [0], 2: [0], 3: [0], 4: [1, 2, 3], 5: [1, 2, 3]},
+            {0: [], 1: [0], 2: [1], 3: [2], 4: [1], 5: [3, 4], 6: [4, 2]},
+        ]
+        for par in shapes:
+            n = len(par)
+            clocks = [list(range(n)), list(range(n, 0, -1)), [5] * n] + [[rnd.randint(0, n) for _ in range(n)] for _ in range(5)]
+            for stamps in clocks:
+                cases += check_graph(n, par, stamps, G, O.Commit, fail)
     for gi in range(count):
         n = rnd.randint(7, 14)
         par = {i: sorted(rnd.sample(range(i), min(i, rnd.choice([0, 1, 1, 1, 2, 2, 3])))) for i in range(n)}
@@ -216,6 +240,17 @@ def run_large(args):
                 fail("find_merge_base is not the set of maximal common ancestors (random DAG)", {"parents": {str(i): par[i] for i in range(n)}, "commit_times": skew, "c1": a, "c2": b, "got": [int(x) for x in got], "want": sorted(want)})
             if G.can_fast_forward(repo, ids[a], ids[b]) != (a in anc[b]):
                 fail("can_fast_forward is not the ancestor test (random DAG)", {"parents": {str(i): par[i] for i in range(n)}, "commit_times": skew, "c1": a, "c2": b})
+        for _ in range(6):
+            sub = rnd.sample(range(n), rnd.choice([3, 3, 4]))
+            cases += 1
+            want = maximal(set.intersection(*[set(anc[x]) for x in sub]), anc)
+            got = G.find_octopus_base(repo, [ids[x] for x in sub])
+            if sorted(got) != sorted(ids[x] for x in want):
+                fail("find_octopus_base is not the set of maximal common ancestors of all commits (random DAG)", {"parents": {str(i): par[i] for i in range(n)}, "commit_times": skew, "commits": sub, "got": [int(x) for x in got], "want": sorted(want)})
+            want = maximal(anc[sub[0]] & set.union(*[set(anc[x]) for x in sub[1:]]), anc)
+            got = G.find_merge_base(repo, [ids[x] for x in sub])
+            if sorted(got) != sorted(ids[x] for x in want):
+                fail("find_merge_base(c1, c2s) is not the set of maximal common ancestors of c1 with any c2 (random DAG)", {"parents": {str(i): par[i] for i in range(n)}, "commit_times": skew, "commits": sub, "got": [int(x) for x in got], "want": sorted(want)})
         incs = [tuple(rnd.sample(range(n), rnd.choice([1, 1, 2])))for _ in range(3)]
         cases += check_walk_sets(n, par, skew, incs, [], fail, W, O, MemoryObjectStore, "random DAG, skewed clocks, no exclusion")
         for inc in incs:
@@ -307,14 +342,14 @@ def main():
     failures = []
     seed = int(os.environ.get("VERIF_SEED", "0"))
     large = [(seed * 1000 + k, 20 if tier == "quick" else 150) for k in range(16)]
-    bound += "; beyond it: 18 directed walker scenarios (excluded runs of 1..9 commits next to older included commits) and %d seeded random DAGs with 7..14 commits (skewed clocks for merge bases and plain walks, monotone clocks with ties for walks with exclusions)" % sum(c for _s, c in large)
+    bound += "; beyond it: 18 directed walker scenarios (excluded runs of 1..9 commits next to older included commits), 7 criss-cross shapes with 5..7 commits x 8 clocks x all query pairs/triples (merge base, octopus base, independent) and %d seeded random DAGs with 7..14 commits (skewed clocks for merge bases and plain walks, monotone clocks with ties for walks with exclusions)" % sum(c for _s, c in large)
     with ProcessPoolExecutor(max_workers=min(16, os.cpu_count() or 1)) as ex:
         for c, f in itertools.chain(ex.map(run_chunk, jobs), ex.map(run_large, large)):
             cases += c
             for x in f:
                 if len(failures) < 10 and sum(1 for y in failures if y["what"] == x["what"]) < 3:
                     failures.append(x)
-    print(json.dumps({"name": "c13_graphs", "function": "dulwich/graph.py find_merge_base/can_fast_forward/independent (_find_lcas), dulwich/walk.py Walker", "cases": cases,
+    print(json.dumps({"name": "c13_graphs", "function": "dulwich/graph.py find_merge_base/find_octopus_base/can_fast_forward/independent (_find_lcas), dulwich/walk.py Walker", "cases": cases,
                       "exhaustive": True, "bound": bound, "failures": failures, "secs": round(time.time() - t0, 2)}))
 
 
